@@ -12,6 +12,8 @@ def classify(sig, what):
         return 'A3: an inline allOf used as a property schema is rendered as an anonymous struct whose optional member with maximum: 0 (a pointer, because zero must be distinguishable) is dereferenced by the validator without a nil check: Validate panics (nil pointer dereference) on a document that omits the member.'
     if chain.endswith('>allOf') and not gen_true:
         return 'A1/A2: an inline allOf used as a property (or as a member of another allOf) is rendered as an anonymous struct validated in place: its member properties are rendered Required although the member schema does not require them (A1), and optional numeric/string members with a lower bound are validated without the "if zero, not required" guard (A2) - a document that legitimately omits the member is rejected.'
+    if any(c in ('props+minProps', 'props+maxProps') for c in ctx) and not (ctx[0] in ('props+minProps', 'props+maxProps') and 'string/date' in sig):
+        return 'PC1 (generalises the validation face of Z1): minProperties / maxProperties of an object with declared properties are checked on the RE-MARSHALLED model, so every property the model cannot omit when it is absent from the document - a non-pointer date / date-time, an array rendered as null, a nested struct or allOf value, a map - is counted: ' + ('a document with too few properties is accepted' if gen_true else 'a document within the limit is rejected') + ' (' + chain + ').'
     if ctx[0] in ('props+minProps', 'props+maxProps') and 'string/date' in sig:
         return 'Z1 (validation face): minProperties / maxProperties of an object with declared properties are checked on the re-marshalled model; an OPTIONAL date / date-time property is a non-pointer strfmt value that is never omitted (it re-encodes as year 1), so it is counted although the document does not hold it: ' + ('a document with too few properties is accepted' if gen_true else 'a document within the limit is rejected') + ' (' + chain + ').'
     if any(c.startswith('allOf') for c in ctx) and not gen_true and 'z in body is required' in what:
